@@ -4,4 +4,12 @@ CONSTANTS
   Subs = {"s1", "s2"}
   ValuesOf <- ValuesT
   MaxOps <- OpsT
+  InitTables <- TabNone
+  Foreign = {}
+  Movers = {}
+  Closers = {}
+  MaxMoves = 0
+  Atomic = TRUE
+  Dev_IterateLiveSlice = FALSE
+  Dev_SendErrorFailsWrite = FALSE
 CHECK_DEADLOCK FALSE
